@@ -62,6 +62,25 @@ def gen_strings(tier, seed):
         for tup in itertools.product(alpha4, repeat=n):
             out.append("".join(tup))
     out += ['s = "a\\\nb" + 1; t', 'u = "x\\" ; v', "c = '\\'; d", 'w = "p\\\n\\\nq"\n  z;']
+    # every pair of printable characters (and tab / CR / LF), bare, glued between two identifiers, and glued between an identifier
+    # and a number: operators written without spaces next to any first letter, look-alikes of the two-character operators
+    printable = [chr(c) for c in range(0x20, 0x7f)] + ["\t", "\r", "\n"]
+    for c1 in printable:
+        for c2 in printable:
+            out.append(c1 + c2)
+            out.append("i" + c1 + c2 + "k")
+            out.append("a " + c1 + c2 + "1 z")
+    # single characters between every pair of identifier-start letters / digits
+    for op in "+-&|=!<>*/%^~":
+        for c in printable:
+            out.append("x" + op + c + "y; w")
+            out.append("x" + c + op + "y; w")
+    # carriage returns: CRLF and lone CR line breaks inside and outside string / char literals and comments
+    alpha5 = ['"', "\r", "\n", "a", " ", "/"]
+    for n in range(1, (6 if tier == "quick" else 7)):
+        for tup in itertools.product(alpha5, repeat=n):
+            out.append("".join(tup))
+    out += ['s = "a\r\nb";\r\nint x;', 't = "p\r\n\r\nq" + "r\rs";\r\n// c\r\nu', "c = '\r'; d = '\n';\r\ne", '"\r\n"\r\n"\r"']
     out += SEEDS
     ex = os.path.join(vlib.REPO, "examples")
     if os.path.isdir(ex):
